@@ -312,7 +312,8 @@ def li_value(mine):
 
 
 def prog_input(prog):
-    return {'source': prog['source'], 'compress': prog.get('compress', False)}
+    return {'source': prog['source'], 'compress': prog.get('compress', False), 'meta': prog.get('meta', []),
+            'scenario': prog.get('scenario')}
 
 
 def norm_dec(d):
@@ -343,6 +344,7 @@ def check_pair(ctx, prog, ru, rc, prop):
             if lc.get(k, 0) > lu[k]:
                 ctx.cex('label {} moves up with -c ({} > {})'.format(k, lc.get(k), lu[k]), inp, lc.get(k), lu[k], {'kind': 'label-grows'})
         ctx.nontriv(('sizes', len(ru['bytes']), len(rc['bytes'])))
+        check_C20_eligible(ctx, prog, rc)
         return
     if prop != 'C04':
         return
@@ -416,6 +418,137 @@ def check_pair(ctx, prog, ru, rc, prop):
                     {'kind': 'meaning-differs', 'line-kind': kind, 'ref': m['kind'] if m else None, 'scenario': prog.get('scenario')})
 
 
+# ---------------------------------------------------------------------------------------------- C20
+def text_of(dec):
+    """Canonical source text of a decoded 32-bit instruction (name ops...), operands as the assembler reads them."""
+    n, o = dec[0], [int(x) for x in dec[1:]]
+    r = lambda k: 'x{}'.format(k)
+    if n in ('lui',):
+        return '{} {}, {}'.format(n, r(o[0]), o[1])
+    if n in ('jal',):
+        return 'jal {}, {}'.format(r(o[0]), o[1])
+    if n in ('beq', 'bne'):
+        return '{} {}, {}, {}'.format(n, r(o[0]), r(o[1]), o[2])
+    if n in ('lw', 'jalr', 'addi', 'andi', 'slli', 'srli', 'srai'):
+        return '{} {}, {}, {}'.format(n, r(o[0]), r(o[1]), o[2])
+    if n == 'sw':
+        return 'sw {}, {}, {}'.format(r(o[0]), r(o[1]), o[2])
+    if n in ('add', 'sub', 'xor', 'or', 'and'):
+        return '{} {}, {}, {}'.format(n, r(o[0]), r(o[1]), r(o[2]))
+    if n == 'ebreak':
+        return 'ebreak'
+    return None
+
+
+def eligible_set(ctx):
+    """All 32-bit instructions (name, operands) that are the expansion of a legal non-hint RV32C halfword (Spec)."""
+    if getattr(ctx, '_eligible', None) is None:
+        ans = ctx.spec.batch(['x16 {}'.format(h) for h in range(65536)])
+        el = {}
+        for h, a in enumerate(ans):
+            if a != 'none':
+                el.setdefault(tuple(a.split()), h)
+        ctx._eligible = el
+    return ctx._eligible
+
+
+def sweep_C20(ctx, asm):
+    """Every legal halfword: its expansion, written as a 32-bit instruction with literal operands, must come out of the
+    REAL assembler in 16 bits with -c, as a halfword of the same meaning."""
+    el = eligible_set(ctx)
+    items = sorted(el.items(), key=lambda kv: kv[1])
+    if ctx.quick():
+        items = items[::9] + items[:200]
+    q, lines = [], []
+    for dec, h in items:
+        t = text_of(list(dec))
+        if t is None:
+            ctx.cex('no source text for expansion {}'.format(dec), {'kind': 'halfword', 'halfword': h}, None, 'text', {'kind': 'harness'})
+            continue
+        variants = [t]
+        if dec[0] == 'lui' and int(dec[2]) < 0:
+            variants.append('lui x{}, {}'.format(dec[1], int(dec[2]) + (1 << 20)))     # documented second spelling
+        for src in variants:
+            ctx.evaluations += 1
+            try:
+                b = bytes(asm.assemble(src + '\n', compress=True))
+            except Exception as e:
+                ctx.cex('"{}" (expansion of legal halfword {:#06x}) is refused with -c: {}'.format(src, h, harness.exc_class(e)),
+                        {'kind': 'halfword', 'source': src, 'halfword': h}, harness.exc_class(e), '2 bytes', {'kind': 'eligible-refused', 'name': dec[0]})
+                continue
+            if len(b) != 2:
+                ctx.cex('"{}" is the expansion of the legal halfword {:#06x} but is emitted in {} bytes with -c'.format(src, h, len(b)),
+                        {'kind': 'halfword', 'source': src, 'halfword': h}, b.hex(), '2 bytes', {'kind': 'eligible-not-compressed', 'name': dec[0]})
+                continue
+            q.append('x16 {}'.format(int.from_bytes(b, 'little')))
+            lines.append((src, dec, h, b))
+            ctx.nontriv(('halfword', h))
+    for (src, dec, h, b), a in zip(lines, ctx.spec.batch(q)):
+        got = norm_dec(a.split()) if a != 'none' else None
+        if got != norm_dec(list(dec)):
+            ctx.cex('"{}" is emitted with -c as {} which means {} instead'.format(src, b.hex(), a),
+                    {'kind': 'halfword', 'source': src, 'halfword': h}, a, ' '.join(dec), {'kind': 'eligible-other-meaning', 'name': dec[0]})
+    ctx.count('halfword-expansions', len(lines))
+
+
+def check_C20_eligible(ctx, prog, rc):
+    """In the -c output of a generated program every 32-bit instruction whose source line has literal operands (no label,
+    no constant name) must NOT be the expansion of a legal halfword -- pseudo-instruction expansions included."""
+    import re as _re
+    el = eligible_set(ctx)
+    recs = decode_chunks(ctx, rc['chunks'])
+    lines = prog['source'].split('\n')
+    names = set(k for k, _ in rc['labels']) | set(k for k, _ in rc['constants'])
+    for r in recs:
+        if r['size'] != 4 or not r['dec'] or not (1 <= r['line'] <= len(lines)):
+            continue
+        text = lines[r['line'] - 1]
+        kind, info = classify_line(text)
+        if kind not in ('instruction', 'expansion'):
+            continue
+        toks = _re.findall(r'[A-Za-z_.][A-Za-z_0-9.]*', text.split('#')[0])
+        if any(t in names for t in toks[1:]) or '%' in text:
+            continue                       # label / constant dependent: outside this half of the property
+        if info in ('call', 'tail') or toks[0].lower() in ('j', 'jal', 'beqz', 'bnez') and len(toks) > 1 and not toks[-1].lstrip('-').isdigit():
+            continue
+        key = tuple(r['dec'])
+        if key in el:
+            ctx.cex('line {} "{}": with -c the 32-bit {} is emitted although it is the expansion of the legal halfword {:#06x}'.format(
+                r['line'], text.strip()[:50], ' '.join(r['dec']), el[key]), prog_input(dict(prog, compress=True)), ' '.join(r['dec']),
+                '16 bits', {'kind': 'eligible-not-compressed', 'name': r['dec'][0], 'where': kind})
+
+
+def replay(ctx, prop, rec):
+    """Re-evaluates one stored counterexample of a layout property on the real code; True = it still fails."""
+    asm = harness.real_asm()
+    inp = rec['input']
+    before = len(ctx.counterexamples)
+    if inp.get('kind') == 'halfword':
+        src = inp['source']
+        try:
+            b = bytes(asm.assemble(src + '\n', compress=True))
+        except Exception:
+            return True
+        if len(b) != 2:
+            return True
+        a = ctx.spec.batch(['x16 {}'.format(int.from_bytes(b, 'little')), 'x16 {}'.format(inp['halfword'])])
+        return norm_dec(a[0].split()) != norm_dec(a[1].split())
+    prog = {'source': inp['source'], 'meta': inp.get('meta') or [], 'scenario': inp.get('scenario')}
+    ru = pipeline.run_real(asm, prog['source'], False)
+    rc = pipeline.run_real(asm, prog['source'], True)
+    if prop in ('C03', 'C08', 'C09'):
+        for real, c in ((ru, False), (rc, True)):
+            if real['status'] != 'OK':
+                continue
+            recs = decode_chunks(ctx, real['chunks'])
+            {'C03': check_C03, 'C08': check_C08, 'C09': check_C09}[prop](ctx, dict(prog, compress=c), real, recs)
+    else:
+        check_pair(ctx, prog, ru, rc, prop)
+        if prop == 'C20' and rc['status'] == 'OK':
+            check_C20_eligible(ctx, prog, rc)
+    return len(ctx.counterexamples) > before
+
+
 def make_programs(ctx, n, seed_off=0):
     rng = random.Random(ctx.seed * 1000003 + seed_off)
     progs = []
@@ -464,6 +597,8 @@ def explore(ctx, prop):
             check_pair(ctx, progs[k], reals[k], reals[k + 1], prop)
             if prop == 'C12' and reals[k]['status'] == 'OK':
                 ctx.nontriv(('pair', k))
+    if prop == 'C20':
+        sweep_C20(ctx, asm)
     if progs:
         ctx.sample({'source': short(progs[1]['source']), 'compress': progs[1]['compress'],
                     'result': pipeline.brief(reals[1])})
